@@ -77,7 +77,7 @@ class SortFootnotes(Transform):
 
     def apply(self, **kwargs: t.Any) -> None:
         """Apply the transform."""
-        if not self.document.settings.myst_footnote_sort:
+        if not getattr(self.document, "myst_footnote_sort", True):
             return
 
         ref_order: list[str] = [
@@ -104,7 +104,7 @@ class CollectFootnotes(Transform):
 
     def apply(self, **kwargs: t.Any) -> None:
         """Apply the transform."""
-        if not self.document.settings.myst_footnote_sort:
+        if not getattr(self.document, "myst_footnote_sort", True):
             return
 
         footnotes: list[tuple[str, nodes.footnote]] = []
@@ -118,7 +118,7 @@ class CollectFootnotes(Transform):
 
         if (
             footnotes
-            and self.document.settings.myst_footnote_transition
+            and getattr(self.document, "myst_footnote_transition", True)
             # avoid warning: Document or section may not begin with a transition
             and not all(isinstance(c, nodes.footnote) for c in self.document.children)
         ):
